@@ -12,13 +12,16 @@ from harness import c19_gen as G
 from harness import c19_real as R
 from harness import c19_pairs as P
 from harness import c19_api as A
+from harness import c19_ext as X
 
 PROP = 'C19'
 MODEL_MODULES = ['TenpyModel.Util.J', 'TenpyModel.C19.Order', 'TenpyModel.C19.Lattice', 'TenpyModel.C19.Couplings',
-                 'TenpyModel.C19.Variants']
+                 'TenpyModel.C19.Variants', 'TenpyModel.C19.Ext']
 PROPS_MODULES = ['TenpyModel.C19.PropsOrder', 'TenpyModel.C19.PropsIndex', 'TenpyModel.C19.PropsCouplings',
                  'TenpyModel.C19.PropsMulti', 'TenpyModel.C19.PropsVariants', 'TenpyModel.C19.PropsPairs', 'TenpyModel.C19.PropsPairsOutside']
 PROPS_MODULES = PROPS_MODULES + ['TenpyModel.C19.Props2']   # second round of theorems (Props2.lean + P2_*.lean)
+# extension round: MultiSpeciesLattice bookkeeping / _generate_new_pairs (A), find_coupling_pairs (B); model Ext.lean
+PROPS_MODULES = PROPS_MODULES + ['TenpyModel.C19.PropsExtA', 'TenpyModel.C19.PropsExtB']
 LEAN_MODULES = PROPS_MODULES
 LEVEL = 'proof'
 BUDGET = {'quick': 170, 'thorough': 1700}
@@ -32,10 +35,15 @@ RULE = ('A case = lattice class (Chain, Ladder, NLegLadder, Square, Triangular, 
         '(u1,u2,dx) with |dx_a|<=L_a, detailed couplings (lat_indices, coupling_shape, strengths), random '
         'multi-couplings. quick: corpus + seeded random sample; thorough: the whole family (exhaustive=True) '
         '+ random variants. A case is non-trivial when it has >=4 sites and is not (all-open, default order, no '
-        'variant); distinct by content hash.')
+        'variant); distinct by content hash. Extension part (harness/c19_ext.py): MultiSpeciesLattice over every predefined class x '
+        '1-4 species x plain/default/colliding/odd/wrong-number name lists (pairs dict, u maps, positions, unit cell, count_neighbors) '
+        'and find_coupling_pairs on generic lattices with integer basis (dim 1-3), 1-3 sites, max_dx 0-3, default/explicit/too-large '
+        'cutoff, zero basis vectors; non-trivial: >= 2 species resp. max_dx >= 1.')
 TRUSTED = ['Lean 4.33 kernel; axioms of every C19_* theorem within {propext, Classical.choice, Quot.sound}',
            'hand-written model lean/TenpyModel/C19/{Order,Lattice,Couplings,Variants}.lean, tied to '
            'tenpy/models/lattice.py by this correspondence run (identical cases, answers diffed exactly)',
+           'extension model lean/TenpyModel/C19/Ext.lean (MultiSpecies bookkeeping, find_coupling_pairs in exact integer '
+           'arithmetic: cutoff c stands for a float cutoff sqrt(c+0.5)), tied by harness/c19_ext.py',
            'tools/gen_C19.py (AST translator of the pairs/positions tables) and the JSON driver',
            'np.lexsort modelled by List.mergeSort (stable); np.argsort only used with distinct keys',
            'independent oracle harness/c19_real.py: brute force over all pairs of sites / round trips']
@@ -464,10 +472,14 @@ def run(ctx):
     corpus = load_corpus()
     for c in [c for c in corpus if c.get('part') == 'api']:
         res.merge(A.replay_case(c))
-    res.merge(run_cases(ctx, [c for c in corpus if c.get('part') != 'api'], workers=1))
+    for c in [c for c in corpus if c.get('part') == 'ext']:
+        res.merge(X.replay_case(c))
+    res.merge(run_cases(ctx, [c for c in corpus if c.get('part') not in ('api', 'ext')], workers=1))
     res.extra['corpus_cases'] = len(corpus)
     res.merge(P.run(ctx))
     res.merge(A.run(ctx, factor=1 if ctx.quick else 25))
+    # extension round (harness/c19_ext.py): MultiSpeciesLattice bookkeeping + find_coupling_pairs vs Ext.lean
+    res.merge(X.run(ctx, factor=1 if ctx.quick else 12))
     res.extra['anchor_coverage_note'] = ANCHOR_COVERAGE_NOTE
     t0 = time.time()
     if ctx.quick:
@@ -498,7 +510,7 @@ def run(ctx):
 def search(ctx, reasons):
     """failing-input search with the oracle only (no model), bigger sample"""
     rng = ctx.sub_rng('search')
-    cases = [c for c in load_corpus() if c.get('part') != 'api'] + seed_cases(rng)
+    cases = [c for c in load_corpus() if c.get('part') not in ('api', 'ext')] + seed_cases(rng)
     n = 600 if ctx.quick else 6000
     for _ in range(n):
         c = G.random_case(rng)
@@ -511,6 +523,7 @@ def search(ctx, reasons):
     res = run_cases(ctx, cases, use_model=False, workers=min(16, os.cpu_count() or 1), chunk=10)
     res.merge(P.search(ctx))
     res.merge(A.run(ctx, factor=4 if ctx.quick else 40))
+    res.merge(X.search(ctx, factor=4 if ctx.quick else 40))
     return res
 
 
@@ -536,4 +549,6 @@ def replay(ctx, payload):
         return P.run(ctx)
     if case.get('part') == 'api':
         return A.replay_case(case)
+    if case.get('part') == 'ext':
+        return X.replay_case(case)
     return run_cases(ctx, [case], workers=1, do_shrink=False)
